@@ -25,6 +25,22 @@ pub fn cases(thorough: bool, seed: u64) -> Vec<Params> {
             }
         }
     }
+    // more than eight signers: the full set, a t-subset from the top, a non-prefix (t+1)-subset
+    for (n, t) in crate::large_pairs(thorough) {
+        for (k, ids) in [IdSet::Default, IdSet::Wide(seed)].into_iter().enumerate() {
+            let mut subs: Vec<Vec<usize>> = vec![(0..n as usize).collect()];
+            if t < n {
+                subs.push(((n - t) as usize..n as usize).collect());
+                subs.push((0..n as usize).filter(|i| *i != 1).take(t as usize + 1).collect());
+            }
+            for (j, s) in subs.into_iter().enumerate() {
+                if s.len() > 12 && k == 1 {
+                    continue;
+                }
+                out.push(Params { n, t, ids: ids.clone(), subset: s, variant: (((j + k) % 4) as u32) << 1, aux: 0, seed });
+            }
+        }
+    }
     // dense-constant runs: binding factors, nonces and coefficients are structured / pseudo-random
     // full-width constants, so the real NAF multiscalar code recodes dense bit patterns
     // (sampling over the scalars of that one kernel, stated as such)
